@@ -83,6 +83,16 @@ def check_init(s, plan) -> str | None:
     return None
 
 
+def _reconstruct(fn, why):
+    """the peer's from-values constructor on generated wire components: -> (value or None, reason of failure or None)"""
+    if why is not None:
+        return None, why
+    try:
+        return fn().value, None
+    except Exception as ex:  # noqa: BLE001 - the property says the value is reproduced, so any exception is a failure
+        return None, f"from-values reconstruction raised {type(ex).__name__}: {ex}"
+
+
 def run_kind(ctx: Ctx, m, kind: str):
     d = ctx.driver
     cls = {"init": m.InitSequenceStart, "ping": m.PingSequenceStart, "account": m.AccountReplySequenceStart}[kind]
@@ -97,7 +107,7 @@ def run_kind(ctx: Ctx, m, kind: str):
         why = None
         if kind == "init":
             why = check_init(res, plan)
-            rec = m.InitSequenceStart.from_init_values(res.seq1, res.seq2).value if why is None else None
+            rec, why = _reconstruct(lambda: m.InitSequenceStart.from_init_values(res.seq1, res.seq2), why)
             tup = (res.value, res.seq1, res.seq2, rec)
             lines.append(f"seq init {plan[0]} {plan[1]}" if len(plan) == 2 else "ping")
             ctx.sig((kind, res.value // 64, res.value <= 232, plan[-1] in (0, asked[-1][1] - 1)))
@@ -106,14 +116,14 @@ def run_kind(ctx: Ctx, m, kind: str):
                 why = f"value {res.value} outside 0..1756"
             elif not (0 <= res.seq1 < 253 ** 2 and 0 <= res.seq2 < 253):
                 why = f"wire components seq1={res.seq1} seq2={res.seq2} do not fit a short and a char"
-            rec = m.PingSequenceStart.from_ping_values(res.seq1, res.seq2).value if why is None else None
+            rec, why = _reconstruct(lambda: m.PingSequenceStart.from_ping_values(res.seq1, res.seq2), why)
             tup = (res.value, res.seq1, res.seq2, rec)
             lines.append(f"seq ping {plan[0]} {plan[1]}" if len(plan) == 2 else "ping")
             ctx.sig((kind, res.value // 64, plan[-1] in (0, asked[-1][1] - 1)))
         else:
             if not 0 <= res.value < 253:
                 why = f"value {res.value} does not fit a char"
-            rec = m.AccountReplySequenceStart.from_value(res.value).value if why is None else None
+            rec, why = _reconstruct(lambda: m.AccountReplySequenceStart.from_value(res.value), why)
             tup = (res.value, rec)
             lines.append(f"seq account {plan[0]}" if len(plan) == 1 else "ping")
             ctx.sig((kind, res.value // 16))
@@ -176,9 +186,13 @@ def run(ctx: Ctx):
         pairs = [(rng.randrange(0, 253), rng.randrange(0, 253)) for _ in range(2000)]
         ans = ctx.driver.ask([f"seq frominit {a} {b}" for a, b in pairs] + [f"seq fromping {a} {b}" for a, b in pairs])
         for i, (a, b) in enumerate(pairs):
-            s = m.InitSequenceStart.from_init_values(a, b)
-            p = m.PingSequenceStart.from_ping_values(a, b)
-            if f"ok {s.value} {s.seq1} {s.seq2} {s.value}" != ans[i] or f"ok {p.value} {p.seq1} {p.seq2} {p.value}" != ans[len(pairs) + i]:
+            try:
+                s = m.InitSequenceStart.from_init_values(a, b)
+                p = m.PingSequenceStart.from_ping_values(a, b)
+                got = (f"ok {s.value} {s.seq1} {s.seq2} {s.value}", f"ok {p.value} {p.seq1} {p.seq2} {p.value}")
+            except Exception as ex:  # noqa: BLE001
+                got = (f"err {type(ex).__name__}",) * 2
+            if got[0] != ans[i] or got[1] != ans[len(pairs) + i]:
                 ctx.violation("model-impl-disagree", f"from_init_values/from_ping_values({a},{b}) differ from the model",
                               {"input": {"seq1": a, "seq2": b}, "correspondence": "Seq.from*Values"}, found_input=False)
                 return
